@@ -183,7 +183,7 @@ func (p *PubSub) handleNewPeer(ctx context.Context, pid peer.ID, outgoing *rpcQu
 	go p.handleSendingMessages(sCtx, s, outgoing, firstMessage)
 	go p.handlePeerDead(s)
 	select {
-	case p.newPeerStream <- peerOutgoingStream{Stream: s, FirstMessage: firstMessage, Cancel: cancel}:
+	case p.newPeerStream <- peerOutgoingStream{Stream: s, FirstMessage: firstMessage, Cancel: cancel, Queue: outgoing}:
 	case <-ctx.Done():
 		cancel()
 	}
